@@ -8,13 +8,10 @@ import (
 	g "github.com/zenon-network/go-zenon/chain/genesis/mock"
 	"github.com/zenon-network/go-zenon/chain/nom"
 	"github.com/zenon-network/go-zenon/common/types"
-	"github.com/zenon-network/go-zenon/pow"
 	"github.com/zenon-network/go-zenon/verifier"
 	"github.com/zenon-network/go-zenon/vm"
 	"github.com/zenon-network/go-zenon/vm/constants"
-	"github.com/zenon-network/go-zenon/vm/embedded"
 	"github.com/zenon-network/go-zenon/vm/embedded/definition"
-	"github.com/zenon-network/go-zenon/vm/vm_context"
 	"github.com/zenon-network/go-zenon/wallet"
 	"github.com/zenon-network/go-zenon/zenon/mock"
 )
@@ -41,6 +38,7 @@ func errClassPlasma(err error) int64 {
 func runPlasma(rng *rand.Rand, n int, out *Out, _ []string) {
 	for h := 0; h < n; h++ {
 		plasmaHistory(rng, out)
+		poolHistory(rng, out)
 	}
 }
 
@@ -51,9 +49,11 @@ func plasmaHistory(rng *rand.Rand, out *Out) {
 	constants.FuseExpiration = 3
 	nd := NewNode()
 	defer nd.Stop()
-	users := []*wallet.KeyPair{g.User1, g.User2, g.User3, g.User6, g.User7, g.User8, g.User9, g.User10}
+	dv := newDeliverer(nd)
+	// g.Spork holds 45000 ZNN and 10000 fused QSR: the one account that can afford the 105000-plasma pillar registration
+	users := []*wallet.KeyPair{g.User1, g.User2, g.User3, g.Spork, g.User6, g.User7, g.User8, g.User9, g.User10}
 	// fusions for the users that have none at genesis
-	for _, u := range users[3:] {
+	for _, u := range users[4:] {
 		if rng.Intn(5) == 0 {
 			continue // stays without fused QSR
 		}
@@ -117,28 +117,11 @@ func plasmaHistory(rng *rand.Rand, out *Out) {
 		if sc != nil {
 			u = sc.u
 		}
-		b := &nom.AccountBlock{BlockType: nom.BlockTypeUserSend, Address: u.Address}
 		kind := rng.Intn(10)
 		if sc != nil {
 			kind = 0
 		}
-		switch {
-		case kind < 6: // plain transfer with data
-			b.ToAddress = users[rng.Intn(len(users))].Address
-			dl := []int{0, 0, 0, 1, 10, 100, 300, 1000, 16383, 16384, 16385}[rng.Intn(11)]
-			b.Data = make([]byte, dl)
-			rng.Read(b.Data)
-		case kind < 8: // contract call: plasma.Fuse with zero amount will fail validation -> use token burn of 0? keep simple: donate
-			b.ToAddress = types.AcceleratorContract
-			b.Data = definition.ABIAccelerator.PackMethodPanic(definition.DonateMethodName)
-			b.TokenStandard = types.ZnnTokenStandard
-			b.Amount = big.NewInt(0)
-		default:
-			b.ToAddress = types.PlasmaContract
-			b.Data = definition.ABIPlasma.PackMethodPanic(definition.FuseMethodName, u.Address)
-			b.TokenStandard = types.QsrTokenStandard
-			b.Amount = big.NewInt(0)
-		}
+		b, ctag := candidateTemplate(rng, u, users, kind)
 		if sc != nil && sc.ack != 0 {
 			if m, err := nd.Ch.GetFrontierMomentumStore().GetMomentumByHeight(sc.ack); err == nil && m != nil {
 				b.MomentumAcknowledged = m.Identifier()
@@ -154,41 +137,69 @@ func plasmaHistory(rng *rand.Rand, out *Out) {
 		nd.Fill(b)
 
 		// context exactly as the vm will see it
-		ms := nd.Ch.GetMomentumStore(b.MomentumAcknowledged)
-		as := nd.Ch.GetAccountStore(b.Address, b.Previous())
-		ctx := vm_context.NewAccountContext(ms, as, nd.Cs.FixedPillarReader(b.MomentumAcknowledged))
-		committed, _ := ms.GetAccountStore(b.Address).GetChainPlasma()
-		uncommitted, _ := as.GetChainPlasma()
-		fusedAmt, _ := ms.GetStakeBeneficialAmount(b.Address)
-		base, baseErr := vm.GetBasePlasmaForAccountBlock(ctx, b)
+		st := readPlasmaState(nd, b)
+		committed, uncommitted, fusedAmt := st.committed, st.uncommitted, st.fused
+		// the base cost by the harness's own table; the implementation's function is compared with the model on the
+		// same inputs, and must not look at the fields a sender can set freely
+		base, baseOk := refBase(b, st.found)
 		{
-			// correspondence case for the base-cost model
+			implBase, baseErr := vm.GetBasePlasmaForAccountBlock(st.ctx, b)
 			toContract := types.IsEmbeddedAddress(b.ToAddress)
-			_, merr := embedded.GetEmbeddedMethod(ctx, b.ToAddress, b.Data)
-			found := toContract && merr == nil
 			key := big.NewInt(0)
 			if toContract && len(b.Data) >= 4 {
 				key = new(big.Int).SetBytes(append(append([]byte{}, b.ToAddress[:]...), b.Data[:4]...))
 			}
 			want := int64(-1)
 			if baseErr == nil {
-				want = int64(base)
+				want = int64(implBase)
 			}
 			btag := "transfer"
 			if toContract {
 				btag = "contract-call"
 			}
-			out.Case("base_plasma", Tup(false, toContract, found, Big(key), I64(int64(len(b.Data)))), I64(want), btag)
+			out.Case("base_plasma", Tup(false, toContract, st.found, Big(key), I64(int64(len(b.Data)))), I64(want), btag)
+			out.Oracle((baseErr == nil) == baseOk && (baseErr != nil || implBase == base), "base-cost-by-type-data-method",
+				M{"to": b.ToAddress.String(), "data_len": len(b.Data), "harness_base": U64(base), "impl_base": I64(want)})
 		}
-		if baseErr != nil {
-			out.Count("plasma:base-error")
+		if !baseOk {
+			out.Count("plasma:no-base-cost:" + ctag)
+			if rng.Intn(3) != 0 {
+				continue
+			}
+			// a block without a base cost is refused whatever it claims
+			b.FusedPlasma = 200000
+			presetUnhashed(rng, b, 52500, 200000)
+			Sign(b, u)
+			path := rng.Intn(nPaths)
+			err, _, _ := dv.deliver(b, path, true)
+			out.Oracle(err != nil, "block-without-base-cost-refused",
+				M{"path": pathName[path], "to": b.ToAddress.String(), "data_len": len(b.Data), "sent_basePlasma": U64(b.BasePlasma)})
 			continue
 		}
-		avail, _ := vm.AvailablePlasma(ms, as)
+		avail, _ := vm.AvailablePlasma(nd.Ch.GetMomentumStore(b.MomentumAcknowledged), nd.Ch.GetAccountStore(b.Address, b.Previous()))
 
-		// choose fused plasma and difficulty
+		// difficulty first (its plasma is part of what the block pays), then fused plasma around the REAL base cost
+		var d uint64
+		doWork := true
+		dsel := rng.Intn(8)
+		if sc != nil {
+			dsel = 7
+		}
+		switch dsel {
+		case 0, 1:
+			d = uint64(1 + rng.Intn(40000))
+		case 2:
+			d = uint64(1500 * (1 + rng.Intn(60)))
+		case 3: // claimed difficulty without doing the work
+			d = BoundaryU64(rng)
+			if d == 0 {
+				d = 1
+			}
+			doWork = false
+		}
+		powPlasma := refPowPlasma(d)
 		var f uint64
-		switch rng.Intn(9) {
+		switch rng.Intn(12) {
 		case 0:
 			f = 0
 		case 1:
@@ -200,13 +211,19 @@ func plasmaHistory(rng *rand.Rand, out *Out) {
 		case 4:
 			f = avail + 1
 		case 5:
-			f = constants.MaxPlasmaForAccountBlock + uint64(rng.Intn(3)) - 1
+			f = constants.MaxPlasmaForAccountBlock + uint64(rng.Intn(3)) - 1 - uint64(rng.Intn(2))*powPlasma
 		case 6:
 			f = base + uint64(rng.Intn(2000))
 		case 7:
 			if avail > 0 {
 				f = uint64(rng.Int63n(int64(avail) + 1))
 			}
+		case 8: // exactly the real cost together with the proof-of-work
+			f = base - powPlasma
+		case 9: // one short of it
+			f = base - powPlasma - 1
+		case 10:
+			f = []uint64{1, 21000, 20999, 52500}[rng.Intn(4)]
 		default:
 			f = BoundaryU64(rng)
 		}
@@ -214,36 +231,23 @@ func plasmaHistory(rng *rand.Rand, out *Out) {
 			f = base
 		}
 		b.FusedPlasma = f
-		var d uint64
-		powValid := true
-		dsel := rng.Intn(8)
-		if sc != nil {
-			dsel = 7
+		powValid := proofOfWork(rng, b, d, doWork)
+		// the unhashed plasma fields: left empty (as the node's own template path leaves them) or claimed by the sender
+		preset := "unset"
+		if sc == nil && rng.Intn(5) < 3 {
+			preset = presetUnhashed(rng, b, base, f+powPlasma)
 		}
-		switch dsel {
-		case 0, 1:
-			d = uint64(1 + rng.Intn(40000))
-		case 2:
-			d = uint64(1 + rng.Intn(400000))
-		case 3: // claimed difficulty without doing the work
-			d = BoundaryU64(rng)
-			if d == 0 {
-				d = 1
-			}
-			powValid = false
-		}
-		b.Difficulty = d
-		if d != 0 {
-			if powValid {
-				nonce := pow.GetPoWNonce(new(big.Int).SetUint64(d), pow.GetAccountBlockHash(b))
-				b.Nonce = nom.DeSerializeNonce(nonce)
-			} else {
-				rng.Read(b.Nonce.Data[:])
-				powValid = pow.CheckPoWNonce(b)
-			}
+		out.Count("plasma:unhashed-fields:" + preset)
+		if ib, e := vm.GetBasePlasmaForAccountBlock(st.ctx, b); preset != "unset" {
+			out.Oracle(e == nil && ib == base, "base-cost-independent-of-unhashed-fields",
+				M{"to": b.ToAddress.String(), "data_len": len(b.Data), "real_base_cost": U64(base), "impl_base": U64(ib),
+					"sent_basePlasma": U64(b.BasePlasma), "sent_totalPlasma": U64(b.TotalPlasma)})
 		}
 		Sign(b, u)
-		tx, err := nd.Apply(b)
+		path := rng.Intn(nPaths)
+		insert := sc != nil || rng.Intn(3) != 0
+		err, stored, inserted := dv.deliver(b, path, insert)
+		out.Count("plasma:path:" + pathName[path])
 		cls := errClassPlasma(err)
 		if cls == 8 {
 			out.Count("plasma:other-error:" + err.Error())
@@ -254,8 +258,11 @@ func plasmaHistory(rng *rand.Rand, out *Out) {
 			tag = "panic"
 		}
 		var total, baseOut uint64
-		if err == nil {
-			total, baseOut = tx.Block.TotalPlasma, tx.Block.BasePlasma
+		if err == nil && stored != nil {
+			total, baseOut = stored.TotalPlasma, stored.BasePlasma
+		} else if err == nil {
+			out.Count("plasma:accepted-block-not-held")
+			continue
 		}
 		out.Case("plasma_check",
 			Tup(Big(fusedAmt), Big(committed), Big(uncommitted), U64(base), U64(f), U64(d), powValid),
@@ -263,22 +270,13 @@ func plasmaHistory(rng *rand.Rand, out *Out) {
 
 		// direct statement of the property on the implementation's verdict
 		if err == nil {
-			powPlasma := d / constants.PoWDifficultyPerPlasma
-			if d > constants.MaxDifficultyForAccountBlock {
-				powPlasma = constants.MaxPoWPlasmaForAccountBlock
-			}
-			used := new(big.Int).Sub(uncommitted, committed)
-			provided := new(big.Int).SetUint64(vm.FussedAmountToPlasma(fusedAmt))
-			okBase := f+powPlasma >= base
-			okCap := f+powPlasma <= constants.MaxPlasmaForAccountBlock
-			okFused := new(big.Int).Add(used, new(big.Int).SetUint64(f)).Cmp(provided) <= 0
-			okPow := d == 0 || powValid
-			out.Oracle(okBase && okCap && okFused && okPow, "plasma-accept-sound",
-				M{"fused_amount": Big(fusedAmt), "used_by_unconfirmed": Big(used), "f": U64(f), "d": U64(d), "base": U64(base), "pow_valid": powValid})
-			if sc != nil || rng.Intn(3) != 0 {
-				if e := nd.Insert(tx); e != nil {
-					out.Count("plasma:insert-failed")
-				}
+			out.Count("plasma:accepted:" + ctag)
+			acceptOracle(out, st, b, base, powValid, path, preset)
+			out.Oracle(baseOut == base && total == f+powPlasma, "accepted-block-carries-real-plasma-fields",
+				M{"path": pathName[path], "real_base_cost": U64(base), "f": U64(f), "d": U64(d), "held_basePlasma": U64(baseOut), "held_totalPlasma": U64(total),
+					"sent_basePlasma": U64(b.BasePlasma), "sent_totalPlasma": U64(b.TotalPlasma)})
+			if insert && !inserted {
+				out.Count("plasma:insert-failed")
 			}
 		}
 		if sc != nil || s >= steps {
